@@ -11,6 +11,47 @@ EVIDENCE_DIR = os.environ.get("SS_EVIDENCE") or os.path.join(VERIF, "evidence")
 KNOWN = os.path.join(VERIF, "known_findings.json")
 
 
+class Only:
+    """view of a context through which another property's rule set is run for a few of its rules only: the
+    clauses named in `only` are necessary conditions of this property too (a seeded change showed the
+    dependency), every other rule of the borrowed module is evaluated and dropped"""
+
+    def __init__(self, ctx, only):
+        self._ctx = ctx
+        self._only = set(only)
+        self._dropped = set()
+
+    def __getattr__(self, name):
+        return getattr(self._ctx, name)
+
+    def rule(self, rid, desc, floor=0):
+        if rid in self._only:
+            return self._ctx.rule(rid, desc, floor)
+        self._dropped.add(rid)
+        return rid
+
+    def ok(self, rid, *a, **k):
+        if rid not in self._dropped:
+            self._ctx.ok(rid, *a, **k)
+
+    def bad(self, rid, *a, **k):
+        if rid not in self._dropped:
+            self._ctx.bad(rid, *a, **k)
+
+    def check(self, rid, cond, *a, **k):
+        if rid not in self._dropped:
+            return self._ctx.check(rid, cond, *a, **k)
+        return cond
+
+    def control(self, rid, *a, **k):
+        if rid not in self._dropped:
+            self._ctx.control(rid, *a, **k)
+
+    def missing(self, msg):
+        # an anchor of a dropped rule is not this property's business; one of a kept rule is
+        self._ctx.missing(msg)
+
+
 class Ctx:
     def __init__(self, prop, tier, seed=0):
         self.prop = prop
